@@ -11,7 +11,7 @@ from .traces import validate
 
 FLOW_FORMATS = ["docx", "odt", "html", "mhtml", "epub", "rtf"]
 MULTI = {"deck": ["pptx", "odp", "odg"], "book": ["xlsx", "ods"],
-         "pages": ["pdf", "txt", "md", "csv", "tsv", "json", "rtf"]}
+         "pages": ["pdf", "txt", "md", "csv", "tsv", "json", "rtf", "epub"]}
 
 def gen_units(ctx, kind, max_units):
     cfg = f'SPECIFICATION Spec\nCONSTANTS Kind = "{kind}"\n MaxUnits = {max_units}\n'
